@@ -32,25 +32,33 @@ LenOf(lc, max) ==
     [] OTHER -> -1
 
 (* ---- UTF-8 at the level of payload classes -------------------------------------------------------------- *)
-(* H1/H2: the payload ENDS with the first 1/2 bytes of a 3-byte character; T2/T1: it STARTS with the last 2/1  *)
-(* bytes of one (T1 on its own is the lone continuation byte); the bad_* classes contain a sequence that is    *)
-(* invalid wherever it stands (0xFF, an overlong form, a surrogate, a code point beyond U+10FFFF).            *)
+(* A fragment contributes a piece [pc, n] (class, length > 0).  What matters for validity of the joined message  *)
+(* is how a piece starts and ends relative to the 3-byte character E2 82 AC that the split classes cut:          *)
+(*   H1/H2  the payload ENDS with the first 1/2 bytes of the character (then it still owes 2/1 continuation      *)
+(*          bytes), T2/T1 it STARTS with 2/1 continuation bytes (T1 of length 1 is the lone continuation byte),  *)
+(*   the bad_* classes contain a sequence that is invalid wherever it stands (0xFF, an overlong form, a          *)
+(*   surrogate, a code point beyond U+10FFFF); everything else starts and ends at character boundaries.          *)
+(* Any continuation byte may follow E2, so continuation bytes are only counted.                                  *)
 BadClasses == {"bad_ff", "bad_overlong", "bad_surr", "bad_big", "bin"}
 TextOk == {"ascii", "u2", "u3", "u4"}
 AllTextClasses == TextOk \cup {"H1", "H2", "T2", "T1"} \cup (BadClasses \ {"bin"})
 MinLen(pc) == CASE pc \in {"u2", "H2", "T2", "bad_overlong"} -> 2 [] pc \in {"u3", "bad_surr"} -> 3 [] pc \in {"u4", "bad_big"} -> 4
                 [] pc \in {"H1", "T1", "bad_ff"} -> 1 [] OTHER -> 0
-Owes(pc) == IF pc = "H1" THEN 2 ELSE IF pc = "H2" THEN 1 ELSE 0
-Pays(pc) == IF pc = "T2" THEN 2 ELSE IF pc = "T1" THEN 1 ELSE 0
+Lead(pc) == IF pc = "T2" THEN 2 ELSE IF pc = "T1" THEN 1 ELSE 0          \* continuation bytes the piece starts with
+Owes(pc) == IF pc = "H1" THEN 2 ELSE IF pc = "H2" THEN 1 ELSE 0          \* continuation bytes missing at its end
 
 RECURSIVE Utf8Scan(_, _)
-Utf8Scan(pcs, owed) ==            \* pcs: payload classes of the non-empty fragments of one text message, in order
-  IF pcs = <<>> THEN owed = 0
-  ELSE LET p == Head(pcs) IN
-       /\ p \notin BadClasses
-       /\ owed = Pays(p)
-       /\ Utf8Scan(Tail(pcs), Owes(p))
-Utf8Ok(pcs) == Utf8Scan(pcs, 0)
+Utf8Scan(ps, owed) ==             \* ps: pieces of the non-empty fragments of one text message, in order
+  IF ps = <<>> THEN owed = 0
+  ELSE LET p == Head(ps)
+           more == p.n > Lead(p.pc)        \* something follows the leading continuation bytes
+       IN
+       /\ p.pc \notin BadClasses
+       /\ Lead(p.pc) <= owed               \* else: a continuation byte nobody asked for
+       /\ IF Lead(p.pc) < owed
+          THEN ~more /\ Utf8Scan(Tail(ps), owed - Lead(p.pc))     \* only continuation bytes: still owing (else: cut short)
+          ELSE Utf8Scan(Tail(ps), IF more THEN Owes(p.pc) ELSE 0)
+Utf8Ok(ps) == Utf8Scan(ps, 0)
 
 (* ---- the oracle ------------------------------------------------------------------------------------------ *)
 (* Walk the frames as RFC 6455 section 5.4 prescribes.  Result:                                                       *)
@@ -65,7 +73,7 @@ Utf8Ok(pcs) == Utf8Scan(pcs, 0)
 St0 == [open |-> FALSE, k |-> "-", n |-> 0, h |-> 0, pcs |-> <<>>, msgs |-> <<>>, pongs |-> <<>>, cut |-> -1, pcut |-> -1,
         closed |-> FALSE, judged |-> TRUE]
 
-Piece(f) == IF f.len > 0 THEN <<f.pc>> ELSE <<>>
+Piece(f) == IF f.len > 0 THEN <<[pc |-> f.pc, n |-> f.len]>> ELSE <<>>
 
 Complete(st, max) ==
   LET clear == [st EXCEPT !.open = FALSE, !.k = "-", !.n = 0, !.h = 0, !.pcs = <<>>] IN
